@@ -24,6 +24,14 @@ theorem C19_order_facts :
       ["if gs.HasAction(playerIdx, \"pass\") { return pr.actions.Pass() }",
        "if pr.status == PlayerStatus_Suspend { return pr.automate(gs, playerIdx) }"] := by decide
 
+/-- the payments of `automate`, as the source has them now: the sizes posted for the running hand (`gs.Meta`), by
+request and position, and nothing else -/
+theorem C19_payment_facts :
+    Facts.automateBody.drop 1 =
+      ["switch gs.Status.CurrentEvent { case pokerface.GameEventSymbols[pokerface.GameEvent_AnteRequested]: return pr.actions.Pay(gs.Meta.Ante) case pokerface.GameEventSymbols[pokerface.GameEvent_BlindsRequested]: if gs.HasPosition(playerIdx, \"sb\") { return pr.actions.Pay(gs.Meta.Blind.SB) } else if gs.HasPosition(playerIdx, \"bb\") { return pr.actions.Pay(gs.Meta.Blind.BB) } return pr.actions.Pay(gs.Meta.Blind.Dealer) }",
+       "return nil"] := by rfl
+
+
 /-- **C19 — the most conservative move, never a voluntary chip**: `automate` yields ready, check, fold, a mandatory
 payment of the posted size, or nothing — for every hand state and every player. -/
 theorem C19_conservative (v : View) (gi : Nat) :
